@@ -98,7 +98,7 @@ Section WalkFacts2.
   Lemma dir_processed_tperm : forall rel l l',
     tperm_list l l' -> dir_processed rel l = dir_processed rel l'.
   Proof.
-    intros rel l l' Ht. unfold WalkFacts.dir_processed. f_equal.
+    intros rel l l' Ht. unfold WalkFacts.dir_processed. f_equal. f_equal.
     rewrite (existsb_files (fun fn => lc_cmake_suffix fn && negb (excl (rel ++ [fn]) false)) l).
     rewrite (existsb_files (fun fn => lc_cmake_suffix fn && negb (excl (rel ++ [fn]) false)) l').
     apply existsb_perm. apply (proj2 tperm_shallow). exact Ht.
@@ -1018,15 +1018,20 @@ Example same_dir_name_collides :
   /\ ~ NoDup (write_paths (document st_ex hdrs_ex docfn_ok excl_none (s"proj") (KDir top_dupdir))).
 Proof.
   split; [reflexivity|].
-  apply (not_nodup_witness _ [s"d"; s"index.rst"] 0 2); [lia|vm_compute; reflexivity|vm_compute; reflexivity].
+  apply (not_nodup_witness _ [s"d"; s"index.rst"] 1 3); [lia|vm_compute; reflexivity|vm_compute; reflexivity].
 Qed.
 
-(* (d) auto-exclusion and no .cmake file directly in the input directory: the sub-directories
-   are still walked but the top index.rst is not written, so nothing links to their pages.
-   all_written_reachable needs  dir_processed [] top = true. *)
+(* (d) former finding F23, repaired in the program: auto-exclusion and no .cmake file directly
+   in the input directory.  In a recursive run the input directory now gets its index.rst,
+   which lists the kept sub-directories, so every written page is reachable from it; without
+   --recursive nothing at all is written.  (Before the repair the sub-directories were walked
+   and written while the top index.rst was missing: all_written_reachable_refuted.) *)
 Definition top_nocmake : list node := [F (s"README") (s"R"); D (s"sub") [F (s"c.cmake") (s"C")]].
 Definition run_nocmake : list action :=
   document st_ex hdrs_ex docfn_ok excl_none (s"proj") (KDir top_nocmake).
+Definition st_ex_flat : wsettings :=
+  {| ws_out := true; ws_recursive := false; ws_prefix := None; ws_auto_exclude := true;
+     ws_sep := s"."; ws_ext_titles := false; ws_ext_modules := true |}.
 
 Lemma reachable_needs_top : forall st hdrs excl prefix run p,
   reachable st hdrs excl prefix run p -> In [index_rst] (write_paths run).
@@ -1037,15 +1042,37 @@ Proof.
   - exact IH.
 Qed.
 
-Example all_written_reachable_refuted :
-  tree_ok top_nocmake = true /\ dir_processed st_ex excl_none [] top_nocmake = false
-  /\ write_paths run_nocmake = [[s"sub"; s"index.rst"]; [s"sub"; s"c.rst"]]
-  /\ forall p, ~ reachable st_ex hdrs_ex excl_none (s"proj") run_nocmake p.
+Example top_without_cmake_indexed :
+  tree_ok top_nocmake = true
+  /\ ws_auto_exclude st_ex = true /\ ws_recursive st_ex = true
+  /\ existsb (fun f => lc_cmake_suffix (fst f)) (file_entries top_nocmake) = false
+  /\ write_paths run_nocmake = [[s"index.rst"]; [s"sub"; s"index.rst"]; [s"sub"; s"c.rst"]]
+  /\ nth_error (writes run_nocmake) 0
+     = Some ([s"index.rst"],
+             doc_text hdrs_ex (s"proj")
+               [Dir (s"toctree") [] [(s"maxdepth", s"2")] [Para (s"sub/index.rst")]])
+  /\ toctree_entries st_ex excl_none [] top_nocmake = [s"sub/index.rst"].
+Proof. vm_compute. repeat split. Qed.
+
+Example all_written_reachable_recursive_ex : forall p, In p (write_paths run_nocmake) ->
+  reachable st_ex hdrs_ex excl_none (s"proj") run_nocmake p.
 Proof.
-  split; [reflexivity|]. split; [reflexivity|]. split; [vm_compute; reflexivity|].
-  intros p H. apply reachable_needs_top in H. vm_compute in H.
-  destruct H as [H|[H|[]]]; discriminate H.
+  apply (all_written_reachable_recursive st_ex hdrs_ex docfn_ok excl_none);
+    [exact all_ok_docfn_ok|reflexivity|reflexivity|reflexivity].
 Qed.
+
+Example top_index_always_written_recursive_ex :
+  In (AWrite [index_rst] (index_of st_ex hdrs_ex excl_none (s"proj") [] top_nocmake)) run_nocmake.
+Proof.
+  exact (top_index_always_written_recursive st_ex hdrs_ex docfn_ok excl_none eq_refl eq_refl eq_refl
+           (s"proj") top_nocmake).
+Qed.
+
+(* the same tree without --recursive: the input directory is not processed, nothing is written *)
+Example top_without_cmake_flat :
+  dir_processed st_ex_flat excl_none [] top_nocmake = false
+  /\ document st_ex_flat hdrs_ex docfn_ok excl_none (s"proj") (KDir top_nocmake) = [].
+Proof. vm_compute. split; reflexivity. Qed.
 
 (* (e) W8 needs the excluded file to be a page file: an excluded a.txt next to a.cmake *)
 Definition excl_txt (rel : list str) (isdir : bool) : bool :=
@@ -1078,14 +1105,16 @@ Proof. vm_compute. repeat split. Qed.
    W6   toctree_nodup
    W1b  write_paths_nodup
    W13  stdout_equals_pages_dir, stdout_equals_pages_file
-   refuted: index_content_refuted, stdout_equals_pages_refuted, stdout_equals_pages_file_refuted,
-            all_written_reachable_refuted;
+   refuted: index_content_refuted, stdout_equals_pages_refuted, stdout_equals_pages_file_refuted;
+   F23 repaired: top_without_cmake_indexed, all_written_reachable_recursive_ex,
+                 top_index_always_written_recursive_ex, top_without_cmake_flat;
    witnesses: index_cmake_collides, same_stem_collides, same_dir_name_collides,
               excluded_file_not_written_needs_cmake_name
    (WalkFacts.v)
    W1 writes_exact, writes_exact_in   W2 page_content (write_cases)   W3 index_content
    W4 keep_dir_processed, toctree_closed_dirs, toctree_closed_files
-   W5 toctree_complete, all_written_reachable   W7 excluded_input_no_output
+   W5 toctree_complete, all_written_reachable, all_written_reachable_recursive,
+      all_written_reachable_always, top_index_always_written_recursive   W7 excluded_input_no_output
    W8 written_page_from_nonexcluded   W9 excluded_dir_not_descended
    W11 no_output_dir_no_writes   W12 write_components_from_tree, writes_stay_below
    W14 files_sorted_within_dir   W15 failed_file_aborts, failed_file_aborts_run, nothing_after_abort
@@ -1100,7 +1129,10 @@ Print Assumptions stdout_equals_pages_file.
 Print Assumptions index_content_refuted.
 Print Assumptions stdout_equals_pages_refuted.
 Print Assumptions stdout_equals_pages_file_refuted.
-Print Assumptions all_written_reachable_refuted.
+Print Assumptions top_without_cmake_indexed.
+Print Assumptions all_written_reachable_recursive_ex.
+Print Assumptions top_index_always_written_recursive_ex.
+Print Assumptions top_without_cmake_flat.
 Print Assumptions index_cmake_collides.
 Print Assumptions same_stem_collides.
 Print Assumptions same_dir_name_collides.
